@@ -397,8 +397,10 @@ def mb_chain_net(hops):
         for h, hop in enumerate(hops):
             for d, (a, b) in (('e', (h, h + 1)), ('w', (h + 1, h))):
                 ln = []
+                # 'amp_w': another amplifier kind in the west direction (the two directions of a hop are separate OMSes)
+                hop_d = dict(hop, amp=hop['amp_w']) if d == 'w' and hop.get('amp_w') else hop
                 for i in range(hop['namp']):
-                    ln.append(mb_amp_json(f'amp {d}{h}.{i}', hop))
+                    ln.append(mb_amp_json(f'amp {d}{h}.{i}', hop_d))
                     if i < hop['namp'] - 1:
                         params = {'con_in': 0.5, 'con_out': 0.5}
                         params.update(dispersion_params(hop.get('disp')))
